@@ -13,8 +13,9 @@ import (
 // ---------------------------------------------------------------- C13: Stack is LIFO and bounded
 
 type stackOp struct {
-	Kind string `json:"k"` // push pop clear view
-	Val  int    `json:"v,omitempty"`
+	Kind  string `json:"k"` // push pop clear view
+	Val   int    `json:"v,omitempty"`
+	Quiet bool   `json:"q,omitempty"` // no observation after this operation (a stale cached view survives only unobserved changes)
 }
 
 type stackCase struct {
@@ -66,6 +67,7 @@ func genStackCase(s core.Source) stackCase {
 	nops := int(s.Int(1, 40, "nops"))
 	// values repeat (the same value may be on the stack several times) or are all different
 	repeats := s.Choose(2, "repeats") == 0
+	sparse := s.Choose(2, "sparse") == 0 // the views are looked at after some operations only
 	// a "mood" makes long runs of pushes or pops likely, so that full and empty
 	// are reached whatever the capacity
 	next := 1
@@ -85,6 +87,9 @@ func genStackCase(s core.Source) stackCase {
 			}
 		}
 		op := stackOp{Kind: k}
+		if sparse && k != "view" {
+			op.Quiet = s.Choose(3, "quiet") != 0
+		}
 		if k == "push" {
 			if repeats {
 				op.Val = s.Choose(8, "val") // 0..5 are the empty-looking values of the "any" element type
@@ -232,6 +237,9 @@ func execStack[E any](c stackCase, cd lib.Codec[E]) core.Result {
 			model = nil
 		case "view":
 		}
+		if op.Quiet && i+1 < len(c.Ops) {
+			continue
+		}
 		if v := check(i, op.Kind); v != nil {
 			res.Violation = v
 			return res
@@ -269,11 +277,12 @@ type stackWord struct {
 	Cap  uint   `json:"cap"`
 	Word string `json:"word"` // u = push, o = pop
 	Dup  bool   `json:"dup,omitempty"` // pushed values repeat with period 2
+	Look int    `json:"look,omitempty"` // 0: the views are checked after every operation; k: after every k-th operation and at the end
 }
 
 func genStackWord(maxLen int) func(core.Source) stackWord {
 	return func(s core.Source) stackWord {
-		w := stackWord{Cap: uint(1 + s.Choose(3, "cap")), Dup: s.Choose(2, "dup") == 1}
+		w := stackWord{Cap: uint(1 + s.Choose(3, "cap")), Dup: s.Choose(2, "dup") == 1, Look: s.Choose(3, "look")}
 		n := s.Choose(maxLen+1, "len")
 		b := make([]byte, n)
 		for i := range b {
@@ -295,6 +304,9 @@ func execStackWord(w stackWord, s core.Source) core.Result {
 			c.Ops = append(c.Ops, stackOp{Kind: "push", Val: v})
 		} else {
 			c.Ops = append(c.Ops, stackOp{Kind: "pop"})
+		}
+		if w.Look > 0 && (i+1)%(w.Look+1) != 0 {
+			c.Ops[len(c.Ops)-1].Quiet = true
 		}
 	}
 	return execStackCase(c, s)
